@@ -570,7 +570,7 @@ PROPS["C20"] = {
     "technique": "Lean 4 theorems 'finite in, finite out' about definitions translated from the Rust source on every run, instantiated at XQ (exact rationals with the IEEE-754 rules for "
                  "signed zeros, x/0, 0/0, inf-inf, 0*inf, sqrt of negatives, unordered NaN comparisons), work-bound theorems for the translated loops + class-exact correspondence of the same "
                  "instance and of the Float mirror with the real code on degenerate inputs + degenerate catalogue x every core operation on the real code (panic / hang / non-finite)",
-    "level_text": "Partial. in_loop_cases (Props/C20Self; self_intersection.rs is generated since session 4): for any clipper and any depth, find_intersection_point_in_loop reaches its unimplemented!() ONLY on a dyadic subsection both halves of which are characterised as loops, and otherwise answers with the last arm on a dyadic subsection neither half of which is a loop; self_intersection_ordered / self_intersection_close: a reported pair has 0 <= t1 <= t2 <= 1 and names points as close as the clipper guarantees; find_self_intersection_point_none. " 
+    "level_text": "Partial. in_loop_cases (Props/C20Self; self_intersection.rs is generated since session 4): for any clipper and any depth, find_intersection_point_in_loop answers with its last arm on a dyadic subsection whose halves are both loops or both not - there is no other case, so the function is total (before repair F25, f1b829b, the same theorem had a third case, the unimplemented!() reached exactly when both halves are characterised as loops: it located the panic that a directed search then reproduced on nearly cusped loops); self_intersection_ordered / self_intersection_close: a reported pair has 0 <= t1 <= t2 <= 1 and names points as close as the clipper guarantees; find_self_intersection_point_none. " 
                   "line_clip_to_bounds_fin (Props/C20Clip, the function generated since session 4): a returned segment is finite for every finite line and box - edge/delta is only reached after delta == 0.0 answered false "
                   "(foldlRet_inv / foldlRet_inr: invariant and return-value lemmas for a for-loop with state that can return). " "PROVED for ALL finite inputs, degenerate ones included (coincident control points, point lines, parameters 0 and 1, empty and reversed sections, zero and negative "
                   "distances and tolerances): every number returned is finite - every division the code reaches has a non-zero divisor thanks to its guard, and every non-finite intermediate value "
